@@ -145,9 +145,9 @@ impl Monitor for C09 {
             }
         }
         // three-level shapes f(A op B) (see gen::shape_family)
-        for (c, e) in shape_family(ev) {
+        for (c, e) in shape_family(ev).into_iter().chain(repeated_operand_family(ev)) {
             if ctx.mine() {
-                let s = c.replace("{h}", &e);
+                let s = c.replace("{h}", &format!("({})", e));
                 ctx.check(&Case::new(ev, "shape", &s, Val::NI(0)), &|c, st| {
                     let v = self.judge(c, st);
                     if let Verdict::Pass { .. } = v {
